@@ -5,6 +5,8 @@ import (
 	"errors"
 	"fmt"
 	"html/template"
+	"math"
+	"net/url"
 	"strings"
 	"time"
 
@@ -52,6 +54,9 @@ type kEmb struct {
 	Name string
 	Fn   func() string
 }
+
+// kHolder is comparable as a type, but a value holding a slice cannot be hashed
+type kHolder struct{ V interface{} }
 
 type kStringer struct{ s string }
 
@@ -179,6 +184,20 @@ func kindValue(kind string) (interface{}, bool) {
 	case "slice_ptr_struct":
 		s := mk()
 		return []*kStruct{&s, nil}, true
+	case "float_nan":
+		return math.NaN(), true
+	case "map_float_nan":
+		return map[float64]string{math.NaN(): "nan", 1: "one"}, true
+	case "struct_iface_slice":
+		return kHolder{V: []int{1}}, true
+	case "nilptr_stringer":
+		return (*url.URL)(nil), true
+	case "ptr_stringer":
+		return &url.URL{Scheme: "http", Host: "h"}, true
+	case "str_mb":
+		return "…é", true
+	case "int3":
+		return 3, true
 	}
 	panic("harness: no Go value for kind " + kind)
 }
